@@ -4,7 +4,11 @@
 // The real transport.TarsClient of /repo is driven in-process against a scripted loopback server
 // (own ClientProtocol: 8-byte frames, 4-byte length + 4-byte request id; id 0 = the close
 // notification). The server answers every request it reads, and closes a connection after chosen
-// responses / after an idle period / sends the close notification. Calls are issued at chosen delays
+// responses / after an idle period / sends the close notification. A close after a response is
+// orderly (FIN: the client's Read returns io.EOF), abortive (`rst`: SO_LINGER 0 + Close, the Read
+// fails with ECONNRESET, a *net.OpError), abortive with the client's next request still unread
+// (`rst-unread`), or a whole server restart (`restart`: listener closed, every connection reset, a
+// new listener on the same port after a short gap). Calls are issued at chosen delays
 // after the client has observed the close (0 ms … beyond the 1 s poll period of connection.send).
 // Many scenarios run in parallel, each with its own server and client.
 //
@@ -67,7 +71,7 @@ type Scenario struct {
 	Kind         string `json:"kind"`
 	Seed         int64  `json:"seed"`
 	PreCalls     int    `json:"pre_calls"`      // calls answered on the first connection; the last one triggers the close
-	CloseHow     string `json:"close_how"`      // response | server-idle | notify
+	CloseHow     string `json:"close_how"`      // response | rst | rst-unread | restart | server-idle | notify
 	ServerIdleMs int    `json:"server_idle_ms"` // server-idle: the server closes a connection after this long without a request
 	DelayMs      int    `json:"delay_ms"`       // between the client having observed the close and the next call
 	ClientIdleMs int    `json:"client_idle_ms"` // the client's IdleTimeout (0: one hour)
@@ -91,6 +95,7 @@ type srvConn struct {
 	closedBySrv bool
 	sawEOF      bool
 	reqs        []uint32
+	goOn        chan struct{} // rst-unread: closed by the harness once the unread request is on its way
 }
 
 type gate struct {
@@ -117,7 +122,9 @@ type world struct {
 	mu         sync.Mutex
 	hist       []string
 	conns      []*srvConn
-	closeAfter map[uint32]bool
+	closeAfter map[uint32]string // request id → close mode after its response
+	addr       string
+	restarted  chan struct{}
 	notifyAt   map[uint32]bool
 	connIdx    map[net.Conn]int // client side: first-sight order
 	connLocal  []string
@@ -186,7 +193,7 @@ func newWorld(sc Scenario) (*world, error) {
 	if err != nil {
 		return nil, err
 	}
-	w := &world{sc: sc, ln: ln, closeAfter: map[uint32]bool{}, notifyAt: map[uint32]bool{},
+	w := &world{sc: sc, ln: ln, addr: ln.Addr().String(), restarted: make(chan struct{}), closeAfter: map[uint32]string{}, notifyAt: map[uint32]bool{},
 		connIdx: map[net.Conn]int{}, gates: map[string]*gate{}, pending: map[uint32]chan struct{}{},
 		triggers: map[string]func(){}, tokCount: map[string]int{}}
 	w.p = &proto{w}
@@ -200,12 +207,12 @@ func newWorld(sc Scenario) (*world, error) {
 	}
 	w.cfg = &transport.TarsClientConf{Proto: "tcp", QueueLen: q, IdleTimeout: idle, DialTimeout: 3 * time.Second}
 	w.newClient()
-	go w.acceptLoop()
+	go w.acceptLoop(ln)
 	return w, nil
 }
 
 func (w *world) newClient() *transport.TarsClient {
-	tc := transport.NewTarsClient(w.ln.Addr().String(), w.p, w.cfg)
+	tc := transport.NewTarsClient(w.addr, w.p, w.cfg)
 	worlds.Store(tc, w)
 	w.tc.Store(tc)
 	w.mu.Lock()
@@ -223,14 +230,55 @@ func (w *world) onNotify() {
 	old.GraceClose(ctx)
 }
 
-func (w *world) acceptLoop() {
+func abort(c net.Conn) {
+	if t, ok := c.(*net.TCPConn); ok {
+		_ = t.SetLinger(0) // Close sends RST instead of FIN
+	}
+	_ = c.Close()
+}
+
+// restart: the server goes away and comes back on the same port: the listener is closed, every open
+// connection is reset, and after a short gap a new listener accepts again.
+func (w *world) restart(done chan struct{}) {
+	defer close(done)
+	w.mu.Lock()
+	ln := w.ln
+	var open []*srvConn
+	for _, c := range w.conns {
+		if !c.closedBySrv && !c.sawEOF {
+			c.closedBySrv = true
+			w.hist = append(w.hist, fmt.Sprintf("Q.%d", c.k))
+			open = append(open, c)
+		}
+	}
+	w.mu.Unlock()
+	_ = ln.Close()
+	for _, c := range open {
+		abort(c.c)
+	}
+	time.Sleep(60 * time.Millisecond)
+	for i := 0; i < 200; i++ {
+		ln2, err := net.Listen("tcp", w.addr)
+		if err == nil {
+			w.mu.Lock()
+			w.ln = ln2
+			w.mu.Unlock()
+			go w.acceptLoop(ln2)
+			return
+		}
+		time.Sleep(10 * time.Millisecond)
+	}
+	w.note("restart: could not listen on %s again", w.addr)
+}
+
+func (w *world) acceptLoop(ln net.Listener) {
 	for {
-		c, err := w.ln.Accept()
+		c, err := ln.Accept()
 		if err != nil {
 			return
 		}
 		w.mu.Lock()
-		sc := &srvConn{k: len(w.conns), c: c, remote: c.RemoteAddr().String()}
+		sc := &srvConn{k: len(w.conns), c: c, remote: c.RemoteAddr().String(), goOn: make(chan struct{})}
 		w.conns = append(w.conns, sc)
 		w.hist = append(w.hist, fmt.Sprintf("A.%d", sc.k))
 		w.mu.Unlock()
@@ -247,6 +295,10 @@ func (w *world) serve(sc *srvConn) {
 		_, err := io.ReadFull(sc.c, buf)
 		if err != nil {
 			w.mu.Lock()
+			if sc.closedBySrv { // reset by restart()
+				w.mu.Unlock()
+				return
+			}
 			if ne, ok := err.(net.Error); ok && ne.Timeout() {
 				// idle period: the server stops reading and closes
 				sc.closedBySrv = true
@@ -262,8 +314,9 @@ func (w *world) serve(sc *srvConn) {
 		w.mu.Lock()
 		sc.reqs = append(sc.reqs, id)
 		w.hist = append(w.hist, fmt.Sprintf("V.%d.%d", sc.k, id))
-		closeNow := w.closeAfter[id]
+		mode := w.closeAfter[id]
 		notify := w.notifyAt[id]
+		restartDone := w.restarted
 		w.mu.Unlock()
 		_, _ = sc.c.Write(frame(id)) // the server answers every request it receives
 		if notify {
@@ -279,12 +332,31 @@ func (w *world) serve(sc *srvConn) {
 				_ = sc.c.Close()
 			}()
 		}
-		if closeNow {
+		switch mode {
+		case "response": // orderly close: FIN
 			w.mu.Lock()
 			sc.closedBySrv = true
 			w.hist = append(w.hist, fmt.Sprintf("P.%d", sc.k))
 			w.mu.Unlock()
 			_ = sc.c.Close()
+			return
+		case "rst": // abortive close: RST
+			w.mu.Lock()
+			sc.closedBySrv = true
+			w.hist = append(w.hist, fmt.Sprintf("Q.%d", sc.k))
+			w.mu.Unlock()
+			abort(sc.c)
+			return
+		case "rst-unread": // stop reading now; close when the client's next request is in the socket, unread
+			w.mu.Lock()
+			sc.closedBySrv = true
+			w.hist = append(w.hist, fmt.Sprintf("Q.%d", sc.k))
+			w.mu.Unlock()
+			waitCh(sc.goOn, 3*time.Second)
+			_ = sc.c.Close() // unread input pending: the kernel answers with RST
+			return
+		case "restart":
+			go w.restart(restartDone)
 			return
 		}
 	}
@@ -528,7 +600,7 @@ func (w *world) observeClose(out *outcome) bool {
 		w.mu.Lock()
 		last := ""
 		for _, t := range w.hist {
-			if strings.HasPrefix(t, "P.") {
+			if strings.HasPrefix(t, "P.") || strings.HasPrefix(t, "Q.") {
 				last = "X." + t[2:]
 			}
 		}
@@ -577,10 +649,49 @@ func execute(sc Scenario) (out outcome) {
 		w.mu.Lock()
 		if sc.CloseHow == "notify" {
 			w.notifyAt[i] = true
-		} else if sc.CloseHow != "server-idle" {
-			w.closeAfter[i] = true
+		} else if sc.CloseHow != "server-idle" && sc.CloseHow != "none" {
+			w.closeAfter[i] = sc.CloseHow
 		}
 		w.mu.Unlock()
+	}
+	// after the last call on the old connection: what has to happen before the loss can be noticed
+	afterTrigger := func() {
+		switch sc.CloseHow {
+		case "rst-unread":
+			// one more request goes out on the connection the server has stopped reading; it is never
+			// answered (the server never receives it) and is not judged
+			f := id()
+			w.rec(fmt.Sprintf("B.%d", f))
+			if err := w.tc.Load().Send(frame(f)); err != nil {
+				w.rec(fmt.Sprintf("E.%d", f))
+			} else {
+				w.rec(fmt.Sprintf("R.%d", f))
+			}
+			// until the old connection's sender has written it (or 100 ms), then the server closes
+			w.waitState(100*time.Millisecond, func(st transport.VerifClientState) bool { return st.SendQueue == 0 && st.InvokeNum >= 1 })
+			time.Sleep(5 * time.Millisecond)
+			w.mu.Lock()
+			for _, c := range w.conns {
+				select {
+				case <-c.goOn:
+				default:
+					if c.closedBySrv {
+						close(c.goOn)
+					}
+				}
+			}
+			w.mu.Unlock()
+		case "restart":
+			w.mu.Lock()
+			done := w.restarted
+			w.mu.Unlock()
+			if !waitCh(done, 5*time.Second) {
+				out.notes = append(out.notes, "server did not come back")
+			}
+			w.mu.Lock()
+			w.restarted = make(chan struct{})
+			w.mu.Unlock()
+		}
 	}
 	delay := time.Duration(sc.DelayMs) * time.Millisecond
 
@@ -602,6 +713,7 @@ func execute(sc Scenario) (out outcome) {
 				}
 				wait(w.startCall(c, true))
 			}
+			afterTrigger()
 			judged := true
 			if sc.Kind == "unobserved" {
 				judged = false
@@ -669,6 +781,7 @@ func execute(sc Scenario) (out outcome) {
 			}
 			wait(w.startCall(c, true))
 		}
+		afterTrigger()
 		if !waitCh(g0.arrived, 3*time.Second) {
 			out.notes = append(out.notes, "old sender did not come back to its inner select")
 		}
@@ -922,6 +1035,21 @@ func genScenarios(o *common.Opts, rng *rand.Rand) []Scenario {
 			scs = append(scs, Scenario{Kind: "timely", CloseHow: "response", PreCalls: 1 + rng.Intn(3), DelayMs: d + rng.Intn(200), Rounds: 1 + rng.Intn(2)})
 		}
 		scs = append(scs, Scenario{Kind: "timely", CloseHow: "server-idle", ServerIdleMs: 150 + rng.Intn(200), PreCalls: 1, DelayMs: 1400 + rng.Intn(300), Rounds: 1})
+		// abortive closes: the receiver's Read fails with a *net.OpError instead of io.EOF
+		for _, d := range []int{0, 100, 600} {
+			scs = append(scs, Scenario{Kind: "free", CloseHow: "rst", PreCalls: 1 + rng.Intn(3), DelayMs: d + rng.Intn(1+d/4), Rounds: 1 + rng.Intn(2)})
+			scs = append(scs, Scenario{Kind: "free", CloseHow: "restart", PreCalls: 1 + rng.Intn(3), DelayMs: d + rng.Intn(1+d/4), Rounds: 1 + rng.Intn(2)})
+		}
+		for _, d := range []int{0, 300} {
+			scs = append(scs, Scenario{Kind: "free", CloseHow: "rst-unread", PreCalls: 1 + rng.Intn(2), DelayMs: d + rng.Intn(1+d/4), Rounds: 1})
+		}
+		for _, how := range []string{"rst", "rst-unread", "restart"} {
+			scs = append(scs, Scenario{Kind: "timely", CloseHow: how, PreCalls: 1 + rng.Intn(2), DelayMs: 1300 + rng.Intn(500), Rounds: 1})
+		}
+		for _, how := range []string{"rst", "restart"} {
+			scs = append(scs, Scenario{Kind: "forced-parked", CloseHow: how, PreCalls: 1 + rng.Intn(2), DelayMs: rng.Intn(30)})
+			scs = append(scs, Scenario{Kind: "forced-resend", CloseHow: how, PreCalls: 1 + rng.Intn(2), DelayMs: rng.Intn(30)})
+		}
 		for i := 0; i < 2; i++ {
 			scs = append(scs, Scenario{Kind: "forced-parked", CloseHow: "response", PreCalls: 1 + i, DelayMs: rng.Intn(30)})
 			scs = append(scs, Scenario{Kind: "forced-resend", CloseHow: "response", PreCalls: 1 + rng.Intn(2), DelayMs: rng.Intn(30)})
